@@ -4,8 +4,8 @@ package main
 // sideways, feeding subscriptions are exclusively owned.
 
 import (
-	"go/types"
 	"fmt"
+	"go/types"
 	"strings"
 
 	"golang.org/x/tools/go/ssa"
